@@ -33,6 +33,9 @@ class WFQ(Scheduler):
         """Clock time of most recent put and send operation"""
         self.store = PriorityStore(env)
         self.arrival_seq = 0
+        self.class_backlog: Dict[ClassId, int] = {c: 0 for c in weights}
+        """Packets of each class waiting or in transmission (several flows
+        may be mapped onto one class)"""
 
         self.action = env.process(self.run(env))
 
@@ -59,7 +62,8 @@ class WFQ(Scheduler):
             yield env.process(self.send_packet(packet))
             self.update_vtime()
             class_id = self.flow2class(packet.flow_id)
-            if self.queue_count[class_id] == 0:
+            self.class_backlog[class_id] -= 1
+            if self.class_backlog[class_id] == 0:
                 self.active_set.remove(class_id)
             if len(self.active_set) == 0:
                 self.reset_vtime()
@@ -77,6 +81,7 @@ class WFQ(Scheduler):
         ) + packet.size * 8.0 / (self.rate * self.weights[class_id])
 
         self.add_packet_to_queue(packet)
+        self.class_backlog[class_id] += 1
         self.active_set.add(class_id)
         self.last_time = now
 
